@@ -1,6 +1,10 @@
 use crate::annotations::Disease;
 use core::fmt::Debug;
+#[cfg(not(feature = "verif"))]
 use std::collections::{HashMap, HashSet};
+#[cfg(feature = "verif")]
+#[allow(unused_imports)]
+use crate::verif::{HashMap, HashSet, MapNew};
 use std::fs::File;
 use std::io::Read;
 
